@@ -46,6 +46,10 @@ def crate_probes(nc, nt):
         ops += [{"op": "remove_crate", "c": c, "probe": True}, {"op": "remove_crate", "c": c, "probe": True},
                 {"op": "probe_crate", "c": c, "probe": True}, {"op": "create_sub", "c": c, "n": "z", "probe": True}]
     ops.append({"op": "create_root", "n": "@long100000", "probe": True})
+    # handles of another library object (one per schema family) as arguments
+    ops.append({"op": "create_root", "n": "pfroot", "probe": True})
+    ops.append({"op": "probe_foreign", "c": 1, "probe": True})        # (by now a handle to a removed crate)
+    ops.append({"op": "probe_foreign", "c": nc + 1, "probe": True})   # (a live crate, if every earlier creation succeeded)
     return ops
 
 
